@@ -6,6 +6,7 @@ import (
 	"os"
 	"os/exec"
 	"path/filepath"
+	"runtime"
 	"sort"
 	"strings"
 
@@ -23,7 +24,7 @@ type expectation struct {
 // selfValidate re-runs the rules of property id on scratch copies of the repository with one corpus change applied
 // each (changes the rule is recorded to catch). It validates the checker, not the repository: results go to the
 // evidence as information and never change the verdict on /repo.
-func selfValidate(id, vdir string) map[string]any {
+func selfValidate(id, vdir string, keep []*core.Model) map[string]any {
 	out := map[string]any{}
 	b, err := os.ReadFile(filepath.Join(vdir, "seeded", "expectations.json"))
 	if err != nil {
@@ -36,7 +37,8 @@ func selfValidate(id, vdir string) map[string]any {
 		return out
 	}
 	repo := core.RepoDir()
-	var caught, missed, stale []string
+	var caught, missed, stale, notReplayed []string
+	skippedCross := false
 	for _, e := range exps {
 		want := false
 		for _, p := range e.CaughtBy {
@@ -83,6 +85,7 @@ func selfValidate(id, vdir string) map[string]any {
 				}()
 				for _, r := range rules.Properties[id].Rules {
 					if r.CrossConfig {
+						skippedCross = true
 						continue // needs all four configurations; covered by the quick-tier matrix
 					}
 					r.Run(c)
@@ -99,15 +102,22 @@ func selfValidate(id, vdir string) map[string]any {
 				}
 				sort.Strings(ks)
 				caught = append(caught, e.ID+" ["+strings.Join(ks, ",")+"]")
+			} else if skippedCross {
+				// recorded as caught by a rule that compares the build configurations; not replayable on one scratch load
+				notReplayed = append(notReplayed, e.ID)
 			} else {
 				missed = append(missed, e.ID)
 			}
 		}()
+		// the scratch program of this change is not needed any more: let go of it
+		rules.DropCachesExcept(keep)
+		runtime.GC()
 	}
 	out["expected"] = len(caught) + len(missed) + len(stale)
 	out["caught"] = caught
 	out["missed"] = missed
 	out["stale"] = stale
+	out["not_replayed_cross_config"] = notReplayed
 	out["note"] = "checker self-validation on scratch copies with one recorded change applied each; validates the rules, not /repo; never changes the verdict"
 	return out
 }
